@@ -18,7 +18,7 @@ from pv.ref import extract, pddl, sexpr
 from pv.runner import Res
 
 ID = "C07"
-RULE = ("histories of up to 30 API calls over 1-2 generated domains: parse (again), ground, applicability query, "
+RULE = ("histories of up to 30 API calls over 1-2 generated domains: parse (again), ground (also again on a pooled operator), applicability query, "
         "apply with each flag combination, re-apply a pooled operator to earlier and later states, print (str, "
         "print with/without simplification, effects_to_pddl, serialize, typed_serialize, typed_action_call), export "
         "domain / problem / trajectory, combine agent domains from a directory, construct a fresh Domain().  After "
@@ -77,7 +77,9 @@ def digest_state(s):
     try:
         facts, fl = read_lib_state(s)
         typed = s.typed_serialize()
-        return json.dumps([sorted(facts), sorted((k, str(v)) for k, v in fl.items()), sorted(sexpr.tokenize(typed))], default=str)
+        # the public mappings themselves belong to the value: their key sets (a query must not leave empty groups behind)
+        keys = [sorted(str(k) for k in s.state_predicates), sorted(str(k) for k in s.state_fluents)]
+        return json.dumps([sorted(facts), sorted((k, str(v)) for k, v in fl.items()), sorted(sexpr.tokenize(typed)), keys], default=str)
     except Exception as e:  # noqa: a state that cannot be read is a digest of its own
         return "UNREADABLE:" + repr(e)[:200]
 
@@ -178,6 +180,11 @@ def run_history(case, res):
             o = Operator(dom.actions[name], dom, list(args), objs if op.get("with_objects", True) else None)
             lib_call(o.ground)
             W.operators.append((slot, name, args, o))
+        elif kind == "reground":
+            # ground() is public and may be called again on an operator that was already grounded or used
+            if not W.operators:
+                continue
+            lib_call(W.operators[op["o"] % len(W.operators)][3].ground)
         elif kind in ("applicable", "apply"):
             if not W.operators or not W.states:
                 continue
@@ -506,7 +513,7 @@ def gen(ch, tier):
     ops = [{"op": "parse_domain", "spec": 0}, {"op": "state", "d": 0, "s": 0, "via": "problem"}, {"op": "ground", "d": 0, "c": 0}]
     n = ch.int(4, 30 if tier == "quick" else 60)
     for _ in range(n):
-        k = ch.weighted([(5, "apply"), (3, "applicable"), (2, "ground"), (2, "state"), (2, "print"), (2, "inplace_effect"), (1, "parse_domain"),
+        k = ch.weighted([(5, "apply"), (3, "applicable"), (2, "ground"), (2, "reground"), (2, "state"), (2, "print"), (2, "inplace_effect"), (1, "parse_domain"),
                          (1, "export_domain"), (1, "export_trajectory"), (1, "combine"), (1, "fresh_domain")])
         op = {"op": k, "d": ch.int(0, 3), "s": ch.int(0, 7), "o": ch.int(0, 7), "c": ch.int(0, 7)}
         if k == "apply":
